@@ -38,6 +38,8 @@ def arr_field(f, a):
 
 
 def run(m, rep, tier):
+    from .. import canaries
+    canaries.run(m, rep, ('nw',))
     ents = {n: d for n, d in header_functions(m, ('array.h',)).items() if n.startswith('cstl_array_')}
     rep.extra['array_entry_points'] = sorted(ents)
 
